@@ -43,21 +43,71 @@ def canon(op, a, b="") -> Lit:
 
 
 class Normaliser:
-    """term normalisation hook: maps an expression to its canonical term string."""
+    """term normalisation hook: maps an expression to its canonical term string.
+    `fn` (optional): function whose single-assignment locals are transparent - a local assigned exactly once
+    stands for its right-hand side (also through tuple unpacking), and a boolean local is expanded in guards."""
 
-    def __init__(self, term=None):
+    def __init__(self, term=None, fn: ast.FunctionDef | None = None):
         self._term = term
+        self._defs: dict[str, list] = {}
+        if fn is not None:
+            for n in ast.walk(fn):
+                if isinstance(n, ast.Assign) and len(n.targets) == 1:
+                    t = n.targets[0]
+                    if isinstance(t, ast.Name):
+                        self._defs.setdefault(t.id, []).append(n.value)
+                    elif isinstance(t, (ast.Tuple, ast.List)) and isinstance(n.value, (ast.Tuple, ast.List)) and len(t.elts) == len(n.value.elts):
+                        for a, b in zip(t.elts, n.value.elts):
+                            if isinstance(a, ast.Name):
+                                self._defs.setdefault(a.id, []).append(b)
+                    else:
+                        for x in ast.walk(t):
+                            if isinstance(x, ast.Name):
+                                self._defs.setdefault(x.id, []).append(None)
+                elif isinstance(n, (ast.AugAssign, ast.AnnAssign)) and isinstance(n.target, ast.Name):
+                    self._defs.setdefault(n.target.id, []).append(None)
+                elif isinstance(n, (ast.For, ast.comprehension)):
+                    for x in ast.walk(n.target):
+                        if isinstance(x, ast.Name):
+                            self._defs.setdefault(x.id, []).append(None)
+            params = {a.arg for a in fn.args.args + fn.args.kwonlyargs + fn.args.posonlyargs}
+            for pn in params:
+                if pn in self._defs:
+                    self._defs[pn].append(None)  # a re-bound parameter is not transparent
 
-    def term(self, e) -> str:
+    def single_def(self, name: str):
+        d = self._defs.get(name)
+        if d and len(d) == 1 and d[0] is not None:
+            return d[0]
+        return None
+
+    def term(self, e, _depth=0) -> str:
+        if isinstance(e, ast.Name) and _depth < 4:
+            d = self.single_def(e.id)
+            if d is not None and isinstance(d, (ast.Name, ast.Attribute, ast.Subscript, ast.Constant)):
+                return self.term(d, _depth + 1)
         if self._term:
             t = self._term(e)
             if t is not None:
                 return t
+        if isinstance(e, ast.Call) and isinstance(e.func, ast.Name) and e.func.id == "len" and len(e.args) == 1:
+            return f"len({self.term(e.args[0], _depth + 1)})"
         return src(e)
+
+    def expand(self, e):
+        """a boolean local assigned once from a comparison / boolean expression -> that expression"""
+        if isinstance(e, ast.Name):
+            d = self.single_def(e.id)
+            if isinstance(d, (ast.Compare, ast.BoolOp)) or (isinstance(d, ast.UnaryOp) and isinstance(d.op, ast.Not)) or (isinstance(d, ast.Call) and isinstance(d.func, ast.Name) and d.func.id == "isinstance"):
+                return d
+        return None
 
 
 def cnf(e, norm: Normaliser, negate=False) -> list[frozenset]:
     """CNF clauses of expression e (or its negation)."""
+    ex = norm.expand(e) if hasattr(norm, "expand") else None
+    if ex is not None:
+        return cnf(ex, norm, negate)
     if isinstance(e, ast.UnaryOp) and isinstance(e.op, ast.Not):
         return cnf(e.operand, norm, not negate)
     if isinstance(e, ast.BoolOp):
